@@ -67,7 +67,7 @@ def plan(tier, seed):
         shards=16,
         rule='three long-lived modules (a hooked statement grammar with ignore/classes/operator table/inline '
              'Python, a memo-heavy PEG, a bytes grammar) plus seeded random grammars; (a) random call '
-             'histories of length 40 (quick) / 200 (thorough) mixing texts of equal length, shifted copies, '
+             'histories of 500 (quick) / 3500 (thorough) calls per shard mixing texts of equal length, shifted copies, '
              'pos > 0, fullparse False, other entry rules and calls abandoned by a raising callback; (b) '
              '2-8 threads x the same modules under sys.setswitchinterval(1e-6) and seeded sleep(0) injection '
              'at LINE events of emitted code; (c) nested parse at every callback point k; (d) weakref leak '
@@ -373,6 +373,7 @@ def history(rec, ts, length):
     rng = rec.rng
     fps = {t.name: fingerprint(t.g) for t in ts}
     raised = 0
+    excerpt = []
     for step in range(length):
         t = rng.choice(ts)
         call = rng.choice(t.calls)
@@ -400,6 +401,9 @@ def history(rec, ts, length):
         got = outcome(t.g, call)
         rec.count('history_calls')
         compare(rec, t, call, got, mode, nontrivial=step > 0, step=step)
+        if step < 6:
+            excerpt.append(dict(step=step, module=t.name, call=repr(call)[:120], outcome=observe.outcome_class(got[0])))
+    rec.sample(dict(history_excerpt=excerpt), limit=1)
     for t in ts:
         fp = fingerprint(t.g)
         rec.count('fingerprints_taken')
